@@ -93,3 +93,7 @@ Proof.
   { destruct (step_src rows cols T s a) as [E1 _]. rewrite E1. apply step_Physical; assumption. }
   exact (mask_iff_legal rows cols (conv (fst (step rows cols T s a))) b P' Hb).
 Qed.
+
+(* C03 on the translated step: never FIRST, MID with discount 1 or LAST with discount 0 (no truncation) -- any state, any action *)
+Lemma src_step_protocol rows cols T s a : step_ok 1 false (snd (step rows cols T s a)) = true.
+Proof. destruct (step_src rows cols T s a) as [_ E]. rewrite E. exact (step_protocol rows cols T (conv s) a). Qed.
